@@ -82,3 +82,37 @@ def lib_vs_model(ctx, clause, case, impl, model, fields_of=None, may_refuse=Fals
         return False
     ctx.violation(clause + ":model-" + model.tag, case, "model outcome Ok/Err", "model reached " + model.tag, no_input=True)
     return False
+
+
+def limb_values(rng, bits=64, total=256, per_limb=None):
+    """256-bit values built limb by limb from a small alphabet (zero, one, small, high bit, all ones, a random limb):
+    carries, cancellations and zero limbs between the words of a multi-word integer"""
+    import itertools
+    nl = total // bits
+    m = (1 << bits) - 1
+    alpha = per_limb or [0, 1, 5, 0xff, 1 << (bits - 8), 1 << (bits - 1), m, rng.getrandbits(bits) | 1]
+    out = []
+    for combo in itertools.product(alpha, repeat=nl):
+        v = 0
+        for x in combo:
+            v = (v << bits) | x
+        out.append(v)
+    return out
+
+
+def comparison_path_values(n, bits=64, total=256):
+    """values that follow the limbs of the bound n and then leave it at limb i by -1 / +0 / +1 / all ones / byte-swapped limb,
+    with low limbs all zero or all ones: every path through a limb-wise comparison with n"""
+    nl = total // bits
+    m = (1 << bits) - 1
+    limbs = [(n >> (bits * (nl - 1 - i))) & m for i in range(nl)]
+    out = set()
+    for i in range(nl):
+        swapped = int.from_bytes(limbs[i].to_bytes(bits // 8, "big"), "little")
+        for x in {(limbs[i] - 1) & m, limbs[i], (limbs[i] + 1) & m, m, 0, swapped}:
+            for fill in (0, m):
+                v = 0
+                for j in range(nl):
+                    v = (v << bits) | (limbs[j] if j < i else x if j == i else fill)
+                out.add(v)
+    return sorted(out)
